@@ -3,6 +3,7 @@ import CqlVerif.Drv.Names
 import CqlVerif.Drv.Retry
 import CqlVerif.Drv.Core
 import CqlVerif.Drv.Storm
+import CqlVerif.Drv.Sched
 open CqlVerif.Drv
 
 def dispatch (stream op real : String) : Verdict :=
@@ -12,6 +13,7 @@ def dispatch (stream op real : String) : Verdict :=
   | "retry" => RetryStream.handle op real
   | "core" => CoreStream.handle op real
   | "storm" => StormStream.handle op real
+  | "sched" => SchedStream.handle op real
   | _ => { kind := "diff", detail := s!"unknown stream {stream}" }
 
 partial def loop (h : IO.FS.Stream) (out : IO.FS.Stream) : IO Unit := do
